@@ -1,17 +1,15 @@
-(* C10 -- pinned statements only (generated once by tools/pin.py from `Check`, then fixed); proofs in RcP.v *)
+(* C10 -- pinned statements only; the statement text below is the definition of RcSpec.v written out (the proof is
+   `exact`, so it is checked to be convertible with it); proofs in RcP.v (strong side) and RcWeakP.v (weak side) *)
 From Coq Require Import ZArith List Bool Lia Arith.
 Import ListNotations.
-Require Import Params StateW DisposeW Rc RcSpec RcP.
+Require Import Params StateW DisposeW Rc RcSpec RcP RcWeakP.
 Local Open Scope Z_scope.
 
-Theorem C10_tde :
-  forall (s0 : state) (sched : list (nat * list Z)),
-       run_hyps s0 sched ->
-       let s := mrun s0 sched in
-       forall (o : nat) (ob : obj),
-       geto s o = Some ob ->
-       destructed (word ob) = false ->
-       strong (word ob) = owners s o + b2z (tok ob) /\ (owners s o = 0 -> tok ob = false -> attempts s o = 1).
-Proof. exact RcP.C10_tde. Qed.
-Print Assumptions C10_tde.
+Theorem C10_count_equals_owners :
+  forall s0 sched, fresh_start s0 -> bounded_run s0 sched -> live_counted s0 sched ->
+  let s := mrun s0 sched in
+  forall o ob, geto s o = Some ob -> destructed (word ob) = false ->
+    strong (word ob) = owners s o + b2z (tok ob) /\ (owners s o = 0 -> tok ob = false -> attempts s o = 1).
+Proof. exact RcWeakP.C10. Qed.
+Print Assumptions C10_count_equals_owners.
 
